@@ -68,6 +68,7 @@ class Rt:
         self.xtasks = []
         self.keepalive = []
         self.selfraised = set()   # instances whose body raised CancelledError on its own account
+        self.orig_err = {}        # instance -> the exception object its body raised or returned
         self.dup_names = bool(sc.get('dup_names'))
         self.blocked = {}        # external task index -> (hang record kind, fields) while it is blocked in a bus call
         self.xid = {}            # asyncio task -> external task index
@@ -378,6 +379,21 @@ class TBus(EventBus):
             RT.keepalive.append(handler)   # ids of temporary handlers must not be reused within a scenario
         return r
 
+    async def _default_wal_handler(self, event):
+        if not self.wal_path:
+            return await super()._default_wal_handler(event)
+        n0 = len(RT.log)
+        try:
+            return await super()._default_wal_handler(event)
+        finally:
+            if not any(r['k'] == 'walWrite' for r in RT.log[n0:]):
+                # the write was given up before any file operation: the event could not be serialised
+                b = RT.busidx[self]
+                e = eid(event)
+                opaque = any(isinstance(v, dict) and v.get('__type__') == 'opaque'
+                             for v in (RT.sc['types'].get(type(event).__name__, {}).get('payload') or {}).values())
+                RT.rec('walWrite', p=proc(self), b=b, e=e, ok=False, why='serialise', expected=opaque)
+
     async def execute_handler(self, event, handler, timeout=None):
         try:
             return await super().execute_handler(event, handler, timeout=timeout)
@@ -558,7 +574,17 @@ def mk_types(sc):
         # 'none' = event_timeout None (no deadline at all); None = the library default (300 s, never reached here)
         ns = {'__annotations__': {'event_timeout': float | None},
               'event_timeout': (None if to == 'none' else (to if to else 300.0)), '__module__': __name__}
+        rt = spec.get('rtype')
+        if rt:
+            # a declared result type (class-level field): a class, or a PEP 604 union
+            ns['__annotations__']['event_result_type'] = object
+            ns['event_result_type'] = {'str': str, 'strnone': str | None, 'int': int}[rt]
         for fk, fv in (spec.get('payload') or {}).items():
+            if isinstance(fv, dict) and fv.get('__type__') == 'opaque':
+                # a payload value that cannot be serialised to JSON (legal: arbitrary types are allowed); its WAL write fails
+                ns['__annotations__'][fk] = object
+                ns[fk] = object()
+                continue
             if isinstance(fv, dict) and '__type__' in fv:
                 # a declared, typed payload field
                 ty, v = fv['__type__'], fv['v']
@@ -671,6 +697,11 @@ async def run_prog(i, bi, event, prog, sync):
             raise ValueError(f'handler instance {i} raises')
         elif op == 'return':
             ret = ins[1]
+        elif op == 'return_exc':
+            # the handler returns an exception object instead of raising it
+            ret = ValueError(f'handler instance {i} returns this exception object')
+            RT.orig_err[i] = ret
+            break
     return ret
 
 
@@ -742,7 +773,8 @@ def make_handler(bi, k, h):
                 v = run_prog_sync(i, bi, event, prog)
                 RT.rec('hEnd', i=i, out='ret')
                 return v
-            except Exception:
+            except Exception as ex:
+                RT.orig_err[i] = ex
                 RT.rec('hEnd', i=i, out='raise')
                 raise
             finally:
@@ -776,7 +808,8 @@ def make_handler(bi, k, h):
             finally:
                 RT.rec('hEnd', i=i, out='cancelled')
             raise
-        except Exception:
+        except Exception as ex:
+            RT.orig_err[i] = ex
             RT.rec('hEnd', i=i, out='raise')
             raise
     ha.__name__ = hname(k)
@@ -846,13 +879,18 @@ async def ext_task(x, prog, slots):
                 try:
                     # the filter is handed over as include, as the deprecated predicate, as a (negated) exclude, or split
                     # between them; the type as a name or as the class
-                    mode = k % 5
+                    mode = k % 6
                     kw = ({'include': include} if mode == 0 else {'predicate': include} if mode == 1 else
                           {'exclude': (lambda ev: not include(ev))} if mode == 2 else
                           {'include': (lambda ev: True), 'predicate': include, 'exclude': (lambda ev: False)} if mode == 3 else
                           # (both given: an event has to satisfy include AND the deprecated predicate)
-                          {'include': include, 'predicate': (lambda ev: True)})
-                    got = await b.expect(RT.types[key] if (k % 2 == 1 and key != '*') else key, timeout=to, **kw)
+                          {'include': include, 'predicate': (lambda ev: True)} if mode == 4 else None)
+                    etype = RT.types[key] if (k % 2 == 1 and key != '*') else key
+                    if kw is None:
+                        # the filters handed over by position: expect(event_type, include, exclude)
+                        got = await b.expect(etype, (lambda ev: True), (lambda ev: not include(ev)), timeout=to)
+                    else:
+                        got = await b.expect(etype, timeout=to, **kw)
                     # recorded here: atomic with the removal of the temporary handler in expect()'s finally
                     RT.expect_cur.pop(x, None)
                     RT.rec('expectEnd', x=x, b=bi, got=eid(got), bus=bussnap(b))
@@ -1089,6 +1127,13 @@ async def run_sc(sc):
                             bad = bad or f'{name}(raise_if_any=False) re-raised a handler exception'
                         if ra and not original:
                             bad = bad or f'{name}(raise_if_any=True) did not re-raise the original exception object'
+                # ... and what is recorded as a handler's error is the very object its body raised or returned
+                for hid, r in ev.event_results.items():
+                    bidx = next((bi for bb, bi in RT.busidx.items() if str(id(bb)) == r.eventbus_id), -1)
+                    kk = next((k2 for (b2, hh), k2 in RT.hidx.items() if b2 == bidx and str(hh) == hid.split('.')[-1]), -1)
+                    inst = RT.last_inst.get((bidx, i, kk))
+                    if inst in RT.orig_err and r.error is not RT.orig_err[inst]:
+                        bad = bad or f'the error recorded for handler {kk} is not the exception object its body raised / returned'
                 RT.rec('accessorRaise', e=i, bad=bad or '')
             after = valsnap(ev)
             if after != before:
